@@ -96,3 +96,100 @@ Proof.
   - destruct ((mn <=? sent) && (sent <=? mx)) eqn:E1; [|exact Ho].
     apply andb_true_iff in E1 as [H1 H2]. apply Z.leb_le in H1, H2. lia.
 Qed.
+
+(* ---------- rtr_init ---------- *)
+Lemma init_ok_ranges r e t :
+  init_ok r e t = true <-> (1 <= r <= 86400 /\ 600 <= e <= 172800 /\ 1 <= t <= 7200).
+Proof.
+  unfold init_ok, iv_range.
+  change c_RTR_REFRESH_MIN with 1. change c_RTR_REFRESH_MAX with 86400.
+  change c_RTR_EXPIRATION_MIN with 600. change c_RTR_EXPIRATION_MAX with 172800.
+  change c_RTR_RETRY_MIN with 1. change c_RTR_RETRY_MAX with 7200.
+  rewrite !andb_true_iff.
+  destruct (r <? 1) eqn:A1; destruct (r >? 86400) eqn:A2; destruct (e <? 600) eqn:B1; destruct (e >? 172800) eqn:B2;
+    destruct (t <? 1) eqn:C1; destruct (t >? 7200) eqn:C2; cbn [Z.eqb];
+    rewrite ?Z.gtb_ltb in *;
+    repeat match goal with
+           | H : (_ <? _) = true |- _ => apply Z.ltb_lt in H
+           | H : (_ <? _) = false |- _ => apply Z.ltb_ge in H
+           end;
+    split; intros H; try lia; try (destruct H as [[H1 H2] H3]; discriminate); auto.
+Qed.
+
+(* ---------- End of Data ---------- *)
+Definition ivs (s : sock) : Z * Z * Z := (refresh_iv s, expire_iv s, retry_iv s).
+
+Lemma eod_intervals_v1 s p : nthb p 0 = 1 -> In (iv_mode s) [1; 2; 3] ->
+  ivs (apply_eod_intervals s p) =
+    (prescribed (iv_mode s) (get32 p 12) (refresh_iv s) c_RTR_REFRESH_MIN c_RTR_REFRESH_MAX,
+     prescribed (iv_mode s) (get32 p 20) (expire_iv s) c_RTR_EXPIRATION_MIN c_RTR_EXPIRATION_MAX,
+     prescribed (iv_mode s) (get32 p 16) (retry_iv s) c_RTR_RETRY_MIN c_RTR_RETRY_MAX).
+Proof.
+  intros Hv Hm. unfold apply_eod_intervals. rewrite Hv. change (1 =? 1) with true.
+  assert (E : negb (iv_mode s =? c_RTR_INTERVAL_MODE_IGNORE_ANY) = true).
+  { change c_RTR_INTERVAL_MODE_IGNORE_ANY with 0. destruct Hm as [<-|[<-|[<-|[]]]]; reflexivity. }
+  rewrite E. cbn [andb]. unfold ivs. cbn [refresh_iv expire_iv retry_iv upd_ivs].
+  rewrite !iv_apply_prescribed by assumption. reflexivity.
+Qed.
+
+Lemma eod_intervals_unchanged s p :
+  nthb p 0 <> 1 \/ iv_mode s = c_RTR_INTERVAL_MODE_IGNORE_ANY -> apply_eod_intervals s p = s.
+Proof.
+  intros H. unfold apply_eod_intervals.
+  destruct (nthb p 0 =? 1) eqn:E1; [|reflexivity].
+  destruct (iv_mode s =? c_RTR_INTERVAL_MODE_IGNORE_ANY) eqn:E2; [reflexivity|].
+  apply Z.eqb_eq in E1. apply Z.eqb_neq in E2. destruct H; contradiction.
+Qed.
+
+Definition ivs_in_range (s : sock) : Prop :=
+  in_range (refresh_iv s) c_RTR_REFRESH_MIN c_RTR_REFRESH_MAX /\
+  in_range (expire_iv s) c_RTR_EXPIRATION_MIN c_RTR_EXPIRATION_MAX /\
+  in_range (retry_iv s) c_RTR_RETRY_MIN c_RTR_RETRY_MAX.
+
+Lemma eod_keeps_range s p : In (iv_mode s) [0; 1; 2; 3] -> iv_mode s <> c_RTR_INTERVAL_MODE_ACCEPT_ANY ->
+  ivs_in_range s -> ivs_in_range (apply_eod_intervals s p).
+Proof.
+  intros Hm Hna (H1 & H2 & H3).
+  destruct (Z.eq_dec (nthb p 0) 1) as [Hv|Hv]; [|rewrite eod_intervals_unchanged by (left; exact Hv); exact (conj H1 (conj H2 H3))].
+  destruct (Z.eq_dec (iv_mode s) 0) as [H0|H0].
+  { rewrite eod_intervals_unchanged by (right; exact H0). exact (conj H1 (conj H2 H3)). }
+  assert (Hm' : In (iv_mode s) [1; 2; 3]) by (simpl in *; lia).
+  pose proof (eod_intervals_v1 s p Hv Hm') as E. unfold ivs in E. injection E as E1 E2 E3.
+  unfold ivs_in_range. rewrite E1, E2, E3.
+  split; [|split]; apply prescribed_in_range; auto; vm_compute; discriminate.
+Qed.
+
+(* ---------- polling while established ---------- *)
+Lemma wait_for_sync_timeout w :
+  wait_for_sync w =
+  (mdo r <- receive_pdu (Z.max 0 (last_update (sk w) + refresh_iv (sk w) - now w));
+   match r with
+   | inr p => if nthb p 1 =? c_SERIAL_NOTIFY then ret 0 else ret (-1)
+   | inl c => if c =? -2 then ret 0 else if c =? -4 then mdo _ <- change_state c_RTR_ERROR_TRANSPORT; ret (-1) else ret (-1)
+   end) w.
+Proof. reflexivity. Qed.
+
+(* nothing arrives: the receive ends exactly when the refresh interval (counted from the last
+   synchronisation) is over, and the client goes on to poll *)
+Lemma quiet_until_refresh w v rest :
+  st (sk w) <> c_RTR_SHUTDOWN -> evs w = EvWait v :: rest ->
+  Z.max 0 (last_update (sk w) + refresh_iv (sk w) - now w) < v ->
+  exists w', wait_for_sync w = Ok 0 w' /\ sk w' = sk w /\
+             now w' = Z.max (now w) (last_update (sk w) + refresh_iv (sk w)).
+Proof.
+  intros Hst Hev Hlt. rewrite wait_for_sync_timeout.
+  set (W := Z.max 0 (last_update (sk w) + refresh_iv (sk w) - now w)) in *.
+  assert (HW : 0 <= W) by (unfold W; lia).
+  unfold bind at 1. unfold receive_pdu. unfold bind at 1. unfold get_sk at 1.
+  assert (E0 : (st (sk w) =? c_RTR_SHUTDOWN) = false) by (apply Z.eqb_neq; exact Hst). rewrite E0.
+  unfold bind at 1. unfold tr_recv_all. unfold bind at 1. unfold get_now at 1.
+  change (Z.to_nat 8) with 8%nat. cbn [tr_recv_all_loop].
+  change (zlen [] >=? 8) with false. cbv iota.
+  unfold bind at 1. unfold get_now at 1. unfold bind at 1. unfold tr_recv.
+  rewrite Hev. cbn [tr_recv_evs].
+  replace (now w + W - now w) with W by lia. rewrite (Z.max_r 0 W) by lia.
+  assert (E1 : (v <=? W) = false) by (apply Z.leb_gt; lia). rewrite E1.
+  change (-2 =? -99) with false. cbv iota. unfold ret at 1. unfold recv_err.
+  change (-2 =? -1) with false. change (-2 =? -2) with true. cbv iota. unfold ret.
+  eexists. split; [reflexivity|]. cbn. split; [reflexivity|]. unfold W. lia.
+Qed.
